@@ -32,6 +32,7 @@ RULE = (
     "derivative of a constant). generated: random values/shapes/term layouts for the same operations. "
     "non-trivial = a dtype outside {int64,float64,complex128} or two different dtypes are involved."
 )
+LEVEL_TEXT += (" Also per dtype pair: dtype= requests to sum/cumsum/add/subtract/multiply/prod and their method / ufunc.reduce spellings on values that overflow, round or truncate in the narrow type; prod's accumulator type; power with exponent arrays/scalars of each integer dtype; coefficient lists of mixed dtype and shape (numpy's common type); polynomial(structured / sympy input, dtype=); lists mixing a polynomial with Python numbers; 256 coinciding partial products; attribute lists without coefficients under the poison allocator.")
 ASSUMPTIONS = [
     "values are kept in range for the narrowest dtype involved (small non-negative for unsigned, no '-' on bool)",
     "numpy's own result on the coefficient arrays (same operation, same dtypes) is the specification of promotion and casting",
